@@ -291,10 +291,27 @@ def check_combine(ctx, fi):
         t = U(expand(v, defs, keep=keep + (K2,))).replace(' ', '')
         return t == '%s[%s]' % (other, K) or (srcval is not None and t == srcval)
 
-    inner = [s for s in o.body if isinstance(s, ast.For)]
-    nexts = [s for s in o.body if isinstance(s, ast.Assign) and len(s.targets) == 1 and isinstance(s.targets[0], ast.Name)
+    body_nodes = [n for b in o.body for n in ast.walk(b)]
+    inner = [s for s in body_nodes if isinstance(s, ast.For)]
+    nexts = [s for s in body_nodes if isinstance(s, ast.Assign) and len(s.targets) == 1 and isinstance(s.targets[0], ast.Name)
              and isinstance(s.value, ast.Call) and U(s.value.func) == 'next' and s.value.args
              and isinstance(s.value.args[0], ast.GeneratorExp)]
+    # adds outside the search: only an exact-key fast path (`if K in self: self[K] += other[K]`) is recognised
+    searched = {id(n) for s_ in inner + nexts for n in ast.walk(s_)}
+    for n in body_nodes:
+        if isinstance(n, ast.AugAssign) and id(n) not in searched:
+            par = getattr(n, '_parent', None)
+            if any(isinstance(x, ast.Assign) and x in nexts for x in body_nodes) and isinstance(par, ast.If) and \
+                    U(par.test).replace(' ', '').endswith(('isnotNone', '!=None')):
+                continue        # the add of the next(...) form, judged below
+            pos = ('%sinself' % K, '%sinself.keys()' % K)
+            negs = ('not%sinself' % K, '%snotinself' % K, 'not(%sinself)' % K)
+            tt = U(par.test).replace(' ', '') if isinstance(par, ast.If) else ''
+            fast = isinstance(par, ast.If) and ((n in par.body and tt in pos) or (n in par.orelse and tt in negs)) \
+                and isinstance(n.op, ast.Add) and U(n.target) == 'self[%s]' % K and source_ok(n.value, K)
+            if not fast:
+                raise AnalysisError('CliqueVector.combine: accumulation outside the containing-clique search: `%s`' % U(n))
+            ctx.ob('cv-combine', fi, n, True, 'exact-key fast path: self[%s] receives other[%s]' % (K, K), construct='exact-key path of combine')
     if len(inner) == 1 and not nexts:
         lp = inner[0]
         if U(lp.iter) not in ('self', 'self.keys()') or not isinstance(lp.target, ast.Name):
@@ -322,13 +339,14 @@ def check_combine(ctx, fi):
         where_test = nx_
         tgt = nx_.targets[0].id
         default = nx_.value.args[1] if len(nx_.value.args) > 1 else None
-        guards = [s for s in o.body if isinstance(s, ast.If) and U(s.test).replace(' ', '') in
+        guards = [s for s in body_nodes if isinstance(s, ast.If) and U(s.test).replace(' ', '') in
                   ('%sisnotNone' % tgt, '%s!=None' % tgt)]
         ok_default = default is not None and isinstance(default, ast.Constant) and default.value is None and len(guards) == 1 \
             and not guards[0].orelse
         adds = [s for s in (guards[0].body if guards else []) if isinstance(s, ast.AugAssign)]
         # next() takes the first match by construction; the add must sit under the found-test and nowhere else
-        all_adds = [s for s in ast.walk(o) if isinstance(s, ast.AugAssign)]
+        all_adds = [s for s in ast.walk(o) if isinstance(s, ast.AugAssign) and not
+                    (isinstance(getattr(s, '_parent', None), ast.If) and U(s._parent.test).replace(' ', '') in ('%sinself' % K, '%sinself.keys()' % K))]
         ok_once = ok_default and len(all_adds) == 1
         once_node = guards[0] if guards else nx_
     else:
